@@ -8,12 +8,12 @@ the `used` and `stop` bit vectors, `area_used`, the kFlagEmpty / kFlagIncrementa
 spans the caller holds; the proof is by induction over the history (`Inv.step`, Lemmas/JitAllocStep.lean).
 
 Not proved here (only tested by the correspondence + monitor, see notes/C09.md): `query` of interior addresses (`spanStart`), the
-pool/global statistics as sums over blocks, the retention policy (number of empty blocks), the search-window cache
+pool totals (used / reserved size) as sums over blocks, the retention policy (number of empty blocks), the search-window cache
 (`search_start/search_end/largest_unused_area` outside incremental mode) and with it "released memory is found again", contents /
 fill pattern of memory.  Full-strength statement of the part that is still open:
   theorem reusable : Inv s → (a free run of n granules exists in a block of the pool that serves `size`) → `alloc size` maps no new block
 -/
-import AsmjitVerif.Lemmas.JitAllocStep
+import AsmjitVerif.Lemmas.JitAllocCount
 import AsmjitVerif.Spec.JitAlloc
 namespace AsmjitVerif.JitAlloc
 
@@ -177,6 +177,12 @@ theorem reset_empties {s : St} (h : Reachable s) (hard : Bool) :
         | none => rw [ht] at h1; simp at h1
         | some y => rw [ht] at h1; simp at h1; rw [← h1] at h2; simp at h2
     · intro hp; exact Or.inl hp
+
+/-- **Statistics: allocation count is exact**: in every reachable state `allocation_count` (what `statistics()` reports) equals the
+number of live spans the caller holds; in particular it is 0 once everything has been released or reset. -/
+theorem allocation_count_exact {s : St} (h : Reachable s) : s.a.stats.allocs = liveCount s.tab := by
+  obtain ⟨cfg, ops, hwf, rfl⟩ := h
+  exact CInv.finalState (Inv.init cfg hwf) rfl ops
 
 /-- **The allocator reports itself initialised** in every reachable state (every constructed configuration has a non-zero block
 size; C09-1 inverted this test) -/
